@@ -500,6 +500,23 @@ def f_servers_security(d):
     d["security"] = [{"bearer": []}]
 
 
+def f_collide_then_suffix(d):
+    """Names that collide after sanitisation PLUS names that equal the suffixed forms a de-collision loop would produce
+    (`item`, `Item`, `Item2`, `item_2`): every one referenced directly from an operation."""
+    S(d)["item"] = obj({"a": {"type": "string"}})
+    S(d)["Item"] = obj({"b": {"type": "string"}})
+    S(d)["Item2"] = obj({"c": {"type": "string"}})
+    S(d)["item_2"] = obj({"d": {"type": "string"}})
+    for i, n in enumerate(["item", "Item", "Item2", "item_2"]):
+        op(d, f"/coll/{i}", "get", {"operationId": f"getColl{i}", "tags": ["coll"], "responses": {"200": jresp(ref(n))}})
+
+
+def f_undeclared_path_var(d):
+    """A path template variable without a parameter object (the generator adds it itself) next to optional parameters."""
+    op(d, "/toys/{toyId}/parts/{partId}", "get", {"operationId": "getToyPart", "tags": ["toys"], "parameters": [{"name": "verbose", "in": "query", "schema": {"type": "boolean"}}, {"name": "X-Opt", "in": "header", "schema": {"type": "string"}}], "responses": {"200": jresp(ref("Pet"))}})
+    op(d, "/toys/{toyId}", "delete", {"operationId": "dropToy", "tags": ["toys"], "parameters": [{"name": "force", "in": "query", "schema": {"type": "boolean"}}], "responses": {"204": {"description": "gone"}}})
+
+
 def f_promoted_collision(d):
     """Declared schemas whose names equal the names the parser derives for inline property schemas of a later schema
     (`Keeper` + `status` -> `KeeperStatus`): exercises the name-conflict fallbacks of _parse_properties."""
